@@ -38,7 +38,7 @@ func init() {
 			"half-close is not modelled by the in-memory stream; probes either stall or close",
 		},
 		Units:          units,
-		QuickBudget:    75,
+		QuickBudget:    240,
 		ThoroughBudget: 600,
 	})
 }
